@@ -252,7 +252,7 @@ theorem listen (h : IdxInv k) (fd b : Nat) : IdxInv (k.listen fd b) := by
 
 theorem openSock (h : IdxInv k) (a b : Bool) : IdxInv (k.openSock a b).1 := h.insertSock _
 
-theorem pollConnect (h : IdxInv k) (fd : Nat) (peer : SockAddr) : IdxInv (k.pollConnect fd peer).1 := by
+theorem pollConnect (cfg : Cfg) (h : IdxInv k) (fd : Nat) (peer : SockAddr) : IdxInv (k.pollConnect cfg fd peer).1 := by
   unfold Kernel.pollConnect
   split
   · exact h
@@ -351,7 +351,7 @@ theorem abortOrReap (cfg : Cfg) (h : IdxInv k) (fd : Nat) (b : Bool) : IdxInv (K
   dsimp only
   split <;> (split <;> first | exact h.remove _ | exact h.abortWith _ _ _)
 
-theorem acceptSyn (h : IdxInv k) (lfd : Nat) (l r : SockAddr) (s : Seg) : IdxInv (k.acceptSyn lfd l r s) := by
+theorem acceptSyn (cfg : Cfg) (h : IdxInv k) (lfd : Nat) (l r : SockAddr) (s : Seg) : IdxInv (k.acceptSyn cfg lfd l r s) := by
   unfold Kernel.acceptSyn
   split
   · exact h
@@ -415,7 +415,7 @@ theorem deliver (cfg : Cfg) (h : IdxInv k) (p : Packet) : IdxInv (Kernel.deliver
     · exact h.handleOnConnection _ _ _ _ _
     · split
       · split
-        · exact h.acceptSyn _ _ _ _
+        · exact h.acceptSyn cfg _ _ _ _
         · exact h.emitRst _ _ _
       · split
         · exact h.emitRst _ _ _
@@ -466,7 +466,7 @@ theorem retxPass1Step (cfg : Cfg) (acc : Kernel × List Nat × List Nat) (fd : N
   · dsimp only
     split <;> exact h.setTcb _ _
 
-theorem emitHandshake (h : IdxInv k) (fd : Nat) : IdxInv (k.emitHandshake fd) := by
+theorem emitHandshake (cfg : Cfg) (h : IdxInv k) (fd : Nat) : IdxInv (k.emitHandshake cfg fd) := by
   unfold Kernel.emitHandshake
   split
   · exact h
@@ -482,7 +482,7 @@ theorem checkRetx (cfg : Cfg) (h : IdxInv k) : IdxInv (Kernel.checkRetx cfg k) :
     · exact foldl_inv (P := fun acc : Kernel × List Nat × List Nat => IdxInv acc.1) (Kernel.retxPass1Step cfg)
         (k.retxCands cfg) (k, [], []) h (fun b a hb => IdxInv.retxPass1Step cfg b a hb)
     · intro b fd hb
-      exact hb.emitHandshake fd
+      exact hb.emitHandshake cfg fd
   · intro b fd hb
     exact hb.abortOrReap _ _ _
 
